@@ -118,6 +118,9 @@ class Pool:
         self.coords = [PixCoord(cr[0] + nrng.uniform(-80, 80, 30), cr[1] + nrng.uniform(-80, 80, 30)),
                        PixCoord(float(cr[0]) + 1.5, float(cr[1]) - 2.25),
                        PixCoord(cr[0] + nrng.uniform(-80, 80, (3, 4)), cr[1] + nrng.uniform(-80, 80, (3, 4)))]
+        # positions as an index grid gives them (integer dtype) and as single precision: inputs like any other
+        self.coords.append(PixCoord(np.arange(int(cr[0]) - 5, int(cr[0]) + 6), np.arange(int(cr[1]) - 5, int(cr[1]) + 6)))
+        self.coords.append(PixCoord((cr[0] + nrng.uniform(-40, 40, 9)).astype(np.float32), (cr[1] + nrng.uniform(-40, 40, 9)).astype(np.float32)))
         self.skycoords = [self.wcs.pixel_to_world(self.coords[0].x, self.coords[0].y), self.wcs.pixel_to_world(self.coords[1].x, self.coords[1].y)]
         with warnings.catch_warnings():
             warnings.simplefilter('ignore')
@@ -186,6 +189,28 @@ def wcs_fingerprint(w):
     return h.hexdigest()
 
 
+_MS_INITIAL = [None]
+_FRESH = [None]
+
+
+def process_wide_settings():
+    import astropy.units as u
+    po = np.get_printoptions()
+    return {'printoptions': {k: repr(po[k]) for k in sorted(po) if k != 'formatter'}, 'geterr': dict(sorted(np.geterr().items())),
+            'equivalencies': [repr(e) for e in u.get_current_unit_registry().equivalencies]}
+
+
+def fresh_process_settings():
+    """the same settings in an interpreter that has imported numpy / astropy / regions and done nothing else (once per worker)."""
+    if _FRESH[0] is None:
+        code = ('import sys, json; sys.path[:0] = [sys.argv[1], sys.argv[2]]; import numpy as np; import regions; from vmon.checks import c13; '
+                'print(json.dumps(c13.process_wide_settings()))')
+        p = subprocess.run([sys.executable, '-c', code, os.environ.get('VERIF_REPO', '/repo'), os.path.dirname(os.path.dirname(os.path.dirname(os.path.abspath(__file__))))],
+                           capture_output=True, text=True, timeout=300)
+        _FRESH[0] = json.loads(p.stdout.strip().splitlines()[-1]) if p.returncode == 0 and p.stdout.strip() else False
+    return _FRESH[0]
+
+
 def module_state():
     """fingerprint of module-level tables the library shares across calls."""
     import regions
@@ -225,6 +250,21 @@ def module_state():
     for cls in (regions.RegionMeta, regions.RegionVisual):
         add(cls.valid_keys)
         add(cls.key_mapping)
+    # process-wide settings of the libraries underneath: an operation that changes one of them changes what later, unrelated calls
+    # return (number formatting, unit conversions, floating-point error handling, random streams, plotting defaults)
+    import decimal
+    import locale
+    import random as _random
+    import astropy.units as u
+    h.update(repr(sorted(np.get_printoptions().items(), key=lambda kv: kv[0])).encode())
+    h.update(repr(sorted(np.geterr().items())).encode())
+    reg = u.get_current_unit_registry()
+    h.update(repr([repr(e) for e in reg.equivalencies]).encode() + repr(len(reg.all_units)).encode())
+    h.update(repr(decimal.getcontext()).encode() + repr(locale.getlocale()).encode() + os.getcwd().encode())
+    h.update(repr(np.random.get_state()[1][:8].tolist()).encode() + repr(_random.getstate()[1][:4]).encode())
+    if True:
+        import matplotlib
+        h.update(repr(sorted((k, repr(v)) for k, v in matplotlib.rcParams.items())).encode())
     return h.hexdigest()
 
 
@@ -298,7 +338,7 @@ def do_op(pool, op):
     with warnings.catch_warnings():
         warnings.simplefilter('ignore')
         if name == 'contains':
-            return name, pix.contains(pool.coords[op['j'] % 3])
+            return name, pix.contains(pool.coords[op['j'] % len(pool.coords)])
         if name == 'in':
             return name, (pool.coords[1] in pix)
         if name == 'sky-contains':
@@ -460,7 +500,7 @@ def do_op(pool, op):
             return name, (m.to_image(img.shape), m.cutout(img, fill_value=prng.choice([0, np.nan]), copy=prng.random() < 0.5),
                           m.multiply(img), m.get_values(img))
         if name == 'pixcoord':
-            c = pool.coords[op['j'] % 3]
+            c = pool.coords[op['j'] % len(pool.coords)]
             return name, (c + pool.coords[1], c - pool.coords[1], c.separation(pool.coords[1]), c.rotate(pool.coords[1], 33 * u.deg),
                           c.to_sky(pool.wcs), c.copy(), c == c)
         if name == 'bbox-ops':
@@ -497,8 +537,23 @@ def run_case(case, obs):
     from regions import Regions
     workdir = tempfile.mkdtemp(prefix='vmon-c13-')
     try:
+        if _MS_INITIAL[0] is None:
+            _MS_INITIAL[0] = module_state()          # before the first region of this process exists
         pool = Pool(case['pool'], workdir)
         ms0 = module_state()
+        # whatever happened since the process started (constructions, conversions, reprs in between the monitored operations):
+        # the process-wide state is still the one the process started with
+        fresh = fresh_process_settings()
+        if fresh:
+            now = process_wide_settings()
+            diff = [k for k in fresh if fresh[k] != now[k]]
+            obs.check(not diff, 'module-state-changed:since-process-start',
+                      f'process-wide settings {diff} differ from those of a fresh interpreter: {[(now[k], fresh[k]) for k in diff][:2]}', 'module-state-unchanged')
+        else:
+            obs.count('fresh-settings-unavailable')
+        obs.check(ms0 == _MS_INITIAL[0], 'module-state-changed:since-process-start',
+                  'module-level / process-wide state (library tables, NumPy print options, unit registry, ...) differs from what it was when the '
+                  'process started', 'module-state-unchanged')
         for op in case['ops']:
             before = pool.fingerprints()
             try:
